@@ -104,3 +104,28 @@ def run_native(mode, args, parts=NCPU, timeout=3600):
             raise MachineryError("vh %s failed (%s): %s" % (mode, p.returncode, e.decode("utf-8", "replace")[-2000:]))
         outs.append(json.loads(o.decode("utf-8")))
     return outs
+
+
+def _oi_work(args):
+    a_idx, cases, paths = args
+    a = cases[a_idx]
+    seq = []
+    for b in cases:
+        seq.append(a)
+        seq.append(b)
+    res = eval_cases(seq, paths)
+    return a_idx, [res[2 * i + 1] for i in range(len(cases))]
+
+
+def order_independence(cases, pool):
+    """The finder must be a function of (configuration, text): for every ordered pair (A, B) of `cases`, the entries returned for B
+    right after A has been parsed in the same process must equal those returned for B as the first input of a fresh process.
+    Returns list of (a_index, b_index, baseline, got)."""
+    paths = cfg_paths()
+    base = [eval_cases([c], paths)[0] for c in cases]
+    bad = []
+    for a_idx, after in pool.imap_unordered(_oi_work, [(i, cases, paths) for i in range(len(cases))]):
+        for b_idx, r in enumerate(after):
+            if r != base[b_idx]:
+                bad.append((a_idx, b_idx, base[b_idx], r))
+    return bad
